@@ -612,7 +612,6 @@ func isZeroStruct(v ssa.Value) bool {
 	return true
 }
 
-
 // listAndNode: the list and the node a helper works on, by type (the unlink helper may be a method of either:
 // l.remove(node) / node.unlinkFrom(l)).
 func listAndNode(f *ssa.Function) (l, node *ssa.Parameter) {
